@@ -227,6 +227,16 @@ def install():
         S.selectors = _SelShim(S.selectors)
         _installed[0] = True
 
+def caller_kind(sess):
+    """who is the calling thread with respect to session `sess`: own (the session's own thread) | foreign (the thread of
+    ANOTHER session: a listener of that session is running) | main | app (any other application thread)"""
+    from ncclient.transport.session import Session
+    t = threading.current_thread()
+    if t is sess: return 'own'
+    if isinstance(t, Session): return 'foreign'
+    if t is threading.main_thread(): return 'main'
+    return 'app'
+
 _classes = {}
 def probe_class(kind):
     """kind in unix|tls|ssh -> an observing subclass of the real session class"""
@@ -254,6 +264,8 @@ def probe_class(kind):
             self.close_returned_at = []       # monotonic time of every close() return (client threads only)
             self.close_raised = []
             self.close_durations = []
+            self.close_callers = []           # caller kind of every close() (caller_kind)
+            self.alive_at_return = []         # (caller kind, is this session's thread alive) when close() returned to another thread
             self.at_gate = threading.Event()
             base.__init__(self, dh)
             self._closing = _LoggedEvent(self)
@@ -305,7 +317,9 @@ def probe_class(kind):
         def close(self):
             mine = threading.current_thread() is self
             t0 = now()
-            self._plog_add('CloseCall')
+            who = caller_kind(self)
+            self.close_callers.append(who)
+            self._plog_add('CloseCall', who)
             with self._plock: self._in_close = getattr(self, '_in_close', 0) + 1
             try:
                 r = base.close(self)
@@ -316,6 +330,7 @@ def probe_class(kind):
             with self._plock:
                 if not mine:
                     self.close_returned_at.append(now()); self.close_durations.append(now() - t0)
+                    self.alive_at_return.append((who, self.is_alive()))
                 self._plog_add('CloseRet')
             return r
         join_pause = 0                        # harness: delay after a successful join (widens the window that follows it)
